@@ -11,3 +11,11 @@ Theorem C10_gen_searchsorted_spec : forall (T : Type) (NT : Num T) (a : list T) 
   (k = 0 \/ nltb v (nth (Z.to_nat (k - 1)) a nzero) = false).
 Proof. intros T NT a v. exact (gen_searchsorted_spec a v). Qed.
 Print Assumptions C10_gen_searchsorted_spec.
+
+(* the hand-written model of C10 (coq/C10/Model.v::searchsorted, about which the C10 theorems are proved)
+   and the regenerated kernel return the same index, and both never read out of bounds *)
+From QE Require Import C10.Model C10.TieGen2.
+Theorem C10_gen_searchsorted_tie : forall (T : Type) (NT : Num T) (a : list T) (v : T) (k : Z),
+  gen_searchsorted a v = (k, true) <-> searchsorted a v = Ok k.
+Proof. intros T NT a v k. exact (gen_searchsorted_tie a v k). Qed.
+Print Assumptions C10_gen_searchsorted_tie.
